@@ -104,6 +104,62 @@ def run(ctx):
                     ctx.bad(R_thr, "prepare_file_data|flag", "%s:%d" % (pf.file, n["ln"]), "FLAG_COMPRESS set under `%s` with table %s" % (hirq.render(n["c"]), tt),
                             "the COMPRESS flag is set for data stored raw (or not set for compressed data)")
 
+    # 1b. the compressor's own store-raw rule (writer side of the same threshold) — shared with C03
+    from . import c03 as _c03
+    comp = fns.get(M + "compression::compress::compress")
+    if comp is not None:
+        inline = _c03.make_inliner(comp.hir["body"])
+        for n in hirq.find(comp.hir["body"], "if"):
+            c_in = inline(n["c"])
+            if "len()" not in hirq.render(c_in) or "compress" not in hirq.render(c_in):
+                continue
+            disj = []
+
+            def split(c):
+                c = hirq.strip(c)
+                if c.get("k") == "bin" and c["op"] == "||":
+                    split(c["l"])
+                    split(c["r"])
+                else:
+                    disj.append(c)
+            split(c_in)
+            for d in disj:
+                ats = cmpeval.atoms(d)
+                if len(ats) == 2 and any("compress" in a for a in ats):
+                    st = next(a for a in ats if "compress" in a)
+                    og = next(a for a in ats if a != st)
+                    tt = cmpeval.truth_table(d, st, og)
+                    raw_then = "to_vec" in hirq.render(n["then"]) and "push" not in hirq.render(n["then"])
+                    if raw_then and tt == {"lt": False, "eq": True, "gt": True} and re.search(r"\(1 \+ |\+ 1\)", st):
+                        ctx.ok(R_thr, {"fn": "compress", "guard": hirq.render(d), "table": tt})
+                    else:
+                        ctx.bad(R_thr, "compress|store-raw-guard", "%s:%d" % (comp.file, n["ln"]), "writer-side guard `%s` has table %s (raw arm then=%s)" % (hirq.render(d), tt, raw_then),
+                                "a block whose stored form is as long as the original is emitted compressed; every reader treats equal sizes as raw and returns the compressed stream as the file's content")
+
+    # 1c. flags used for key derivation == flags stored: no FIX_KEY bit may be OR-ed in after the key was derived
+    R_kf = ctx.rule("C01.key-derived-from-final-flags", "in write_file no `flags |= FLAG_FIX_KEY` is reachable after a calculate_file_key(.., flags) call", floor=2)
+    wfile = fns.get(M + "builder::ArchiveBuilder::write_file")
+    if wfile is None:
+        ctx.bad(R_kf, "write_file|missing", "-", "function not found", "anchor gone")
+    else:
+        ctx.saw_fn(wfile)
+        cfg = mirg.Cfg(wfile)
+        fix = consts.get(M + "tables::block::BlockEntry::FLAG_FIX_KEY", 0x20000)
+        sets = []      # (bb, line) of `x = BitOr(x, FIX_KEY)`
+        for i, b in enumerate(wfile.mir["blocks"]):
+            for stt in b["s"]:
+                if stt[0] == "=" and stt[2][0] == "bin" and stt[2][1] == "BitOr" and (mirg.op_int(stt[2][2]) == fix or mirg.op_int(stt[2][3]) == fix):
+                    sets.append((i, stt[3]))
+        for bb, t in mirg.iter_calls(wfile):
+            if (ncallee(t) or "").endswith("ArchiveBuilder::calculate_file_key"):
+                after = cfg.reachable(t["t"]) if t.get("t") is not None else set()
+                late = [(b_, ln_) for b_, ln_ in sets if b_ in after and not cfg.dominates(b_, bb)]
+                if late:
+                    ctx.bad(R_kf, "write_file|fix-key-after-derivation", "%s:%d" % (wfile.file, t["ln"]), "FLAG_FIX_KEY is OR-ed into the flags at line %d, after the key was derived at line %d" % (late[0][1], t["ln"]),
+                            "the file is encrypted with the unadjusted key but stored with FIX_KEY set: readers derive the adjusted key and return garbage")
+                else:
+                    ctx.ok(R_kf, {"call_line": t["ln"], "fix_key_sets_before": len([1 for b_, _ in sets if cfg.dominates(b_, bb) or b_ == bb])})
+
     # 2. probe loops
     probes = ["tables::hash::HashTable::find_file", "builder::ArchiveBuilder::add_to_hash_table",
               "modification::MutableArchive::find_file_entry", "modification::MutableArchive::add_to_hash_table"]
